@@ -695,7 +695,7 @@ META["C16"] = {"engine": "builder-family", "design_ref": "DESIGN.md 5/C16",
             "subtree out of p and put it at q) and the rest is C02's recursive update, so every other path keeps its value and element "
             "order; exhaustive over the named universes, behaviours replayed, random histories validated by TLC; mutations PrevCopies "
             "and AppendPrepends must be refuted.",
-    "note": _BUILDER_NOTE + "; documents carry no priority / delete tags (those are C03/C04); operator targets are mapping paths"}
+    "note": _BUILDER_NOTE + "; documents carry no priority / delete tags (those are C03/C04); operator targets are mapping paths, and for !prev also elements of lists (universe C16_DocsLE); !append / !extend ON a list element are the known finding F26 (known_findings.json, three input-identified probes built on every run: KNOWN-FINDING lines, exit 0; any other result on these inputs is a violation)"}
 _EVAL_NOTE = ("trusted: TLC 1.8, harness/evalobs.py (EvalContext subclass passed through the public eval_ctx argument, recording "
               "call targets), CPython 3.12.1; bounded universes; object identity of scalars is not compared")
 META["C09"] = {"engine": "eval-family", "design_ref": "DESIGN.md 5/C09",
